@@ -62,6 +62,7 @@ def npStep (anchor : Bool) (st : NPState) (ch : Char) : Except Err NPState :=
     else if ch = '"' then .ok { st with inQuotes := false, quotedSeg := true }
     else .ok { st with buf := st.buf ++ [ch] }
   else if ch = '.' then npFinalize anchor st
+  else if st.quotedSeg then .error .value  -- text after the closing quote of a quoted segment
   else if ch = '"' then
     if !st.buf.isEmpty then .error .value else .ok { st with inQuotes := true }
   else .ok { st with buf := st.buf ++ [ch] }
